@@ -234,8 +234,9 @@ class _Formula(_Equiv):
                         "quantity: same formula as the copying form)",
                         N.arr_buf(r) is N.arr_buf(a.x) and r.fields["units"] is a.x.fields["units"]))
             bx = N.arr_buf(a.x)
-            out.append(("C17: the in-place form keeps the floating-point dtype of its buffer",
-                        z3.And(to_z3(bx.kind) == to_z3(old["kind"]), to_z3(bx.itemsize) == to_z3(old["itemsize"]))))
+            if self.xkind == "f":
+                out.append(("C17: the in-place form keeps the floating-point dtype of its buffer",
+                            z3.And(to_z3(bx.kind) == to_z3(old["kind"]), to_z3(bx.itemsize) == to_z3(old["itemsize"]))))
         else:
             out += unchanged("C09/C18: input of the copying form", a.x, old)
         return out
@@ -362,6 +363,12 @@ for _e, _spec in EF.EQUIVALENCES.items():
         _mk(_Formula, _n, equiv=_e, src=_s, dst=_d, in_place=False, xcls="unyt_array", xkind="iu",
             params=tuple(_spec["params"]), value_law=_e != "lorentz",
             may_raise=("TypeError",) if _e == "lorentz" else ())
+        (OUT_OF_REACH if _e == "effective_temperature" else FORMULAS).append(_n)
+        # integer buffer converted in place (re-typed to the float of its width by the out= ufunc forms;
+        # 1-byte integers are refused): the input itself must hold the converted quantity
+        _n = "E_%s_%s_%s_inplace_int" % (_e, _s, _d)
+        _mk(_Formula, _n, equiv=_e, src=_s, dst=_d, in_place=True, xcls="unyt_array", xkind="iu",
+            params=tuple(_spec["params"]), value_law=_e != "lorentz", may_raise=("TypeError",))
         (OUT_OF_REACH if _e == "effective_temperature" else FORMULAS).append(_n)
 ALL = REFUSALS + FORMULAS
 
